@@ -90,6 +90,11 @@ class RandomSource(object):
                               list(TLS_1_1_DOWNGRADE_SENTINEL))))
             assume(NOT(seq_eq(list(r)[24:],
                               list(TLS_1_2_DOWNGRADE_SENTINEL))))
+        if n >= 16:
+            # fresh random values do not repeat (session ids, nonces)
+            for prev in self.log:
+                if len(prev) == n:
+                    assume(NOT(seq_eq(list(r), list(prev))))
         self.log.append(r)
         return newbuf(list(r))
 
@@ -132,6 +137,7 @@ class ModelKey(object):
         self.key_type = real.key_type
         self.signed = []
         self.verified = []
+        self.encrypted = []
         for a in ("curve_name", "public_key", "private_key", "n", "e"):
             if hasattr(real, a):
                 setattr(self, a, getattr(real, a))
@@ -189,7 +195,16 @@ def model_key(chain, real_key, kid):
 
 
 def _end_entity_key(self):
-    return MODEL_KEYS[fp(self)]
+    k = MODEL_KEYS.get(fp(self))
+    if k is None:
+        # a certificate nobody registered (e.g. rewritten in flight): some
+        # other key, whose holder signed nothing in this run
+        leaf = self.x509List[0]
+        real = getattr(leaf, "publicKey", None)
+        if real is None:
+            raise HarnessError("certificate without a public key object")
+        k = MODEL_KEYS[fp(self)] = ModelKey(real, "unk" + fp(self)[:8])
+    return k
 
 
 class PairAEAD(object):
@@ -329,9 +344,46 @@ class PairX509(X509):
         return X509.parseBinary(self, bytearray(int(x) for x in b))
 
 
+def _exact_torepr(cls, value, blacklist=None):
+    """TLSEnum.toRepr with its real first-match semantics, also for symbolic
+    values (one path per matching constant): in the handshake code the NAME
+    of a signature scheme / hash decides what is verified"""
+    from models.codec_env import _has_sym, _ORIG_TOREPR
+    if not _has_sym(value):
+        if blacklist is None:
+            return _ORIG_TOREPR(cls, value)
+        return _ORIG_TOREPR(cls, value, blacklist)
+    fields = cls._recursiveVars(cls)
+    bl = list(blacklist or [])
+    for key, val in fields.items():
+        if key.startswith("__") or key in bl:
+            continue
+        if isinstance(value, tuple):
+            if not isinstance(val, tuple) or len(val) != len(value):
+                continue
+            if all(bool(a == b) for a, b in zip(val, value)):
+                return key
+        elif isinstance(val, int) and not isinstance(val, bool):
+            if val == value:
+                return key
+    return None
+
+
+def _exact_tostr(cls, value, blacklist=None):
+    r = cls.toRepr(value, blacklist)
+    return r if r is not None else "<%s>" % cls.__name__
+
+
 def pair_proxies():
-    p = [x for x in conn_proxies() if not (x[0] is M and x[1] == "X509")]
+    import tlslite.constants as consts
+    from symx.core import SymInt as _SI
+    p = [x for x in conn_proxies()
+         if not (x[0] is M and x[1] == "X509")
+         and not (x[0] is consts.TLSEnum and x[1] in ("toRepr", "toStr"))]
     p.append((M, "X509", PairX509))
+    p.append((consts.TLSEnum, "toRepr", classmethod(_exact_torepr)))
+    p.append((consts.TLSEnum, "toStr", classmethod(_exact_tostr)))
+    p.append((kx, "int_types", (int, _SI)))
     from symx.shims import SymSet
     import tlslite.constants as consts
     p += [(tc, "range", sym_range),
@@ -826,7 +878,8 @@ def pair12_stubs(rnd):
            (rl, "createTripleDES",
             lambda key, iv, impl=None: PairCBC(key, iv, "3des", 8)),
            (rl, "createRC4", lambda key, iv, impl=None: PairStream(key)),
-           (rl, "getRandomBytes", rnd)]
+           (rl, "getRandomBytes", rnd),
+           (kx, "powMod", model_powmod)]
     return st
 
 
@@ -935,3 +988,292 @@ class Scenario12(object):
         if self.kxname.startswith("ecdhe"):
             return ModelKEX.log[0][3] if ModelKEX.log else None
         return DHSpy.log[0] if DHSpy.log else None
+
+
+# ---------------------------------------------------------------------------
+# general scenario (free-form settings), record-level attacker, corrupt keys
+# ---------------------------------------------------------------------------
+
+def reset_models(I, rnd, intctxt=False, euf=False):
+    rnd.I = I
+    rnd.log = []
+    ModelKEX.rnd = rnd
+    ModelKEX.log = []
+    DHSpy.log = []
+    PairAEAD.instances = []
+    PairAEAD.sealed = [] if intctxt else None
+    ModelKey.euf = euf
+    ModelKey.all_signed = []
+
+
+ModelKey.euf = False
+ModelKey.all_signed = []
+_plain_sign = ModelKey.sign
+_plain_verify = ModelKey.verify
+
+
+def _sign_logged(self, data, padding=None, hashAlg=None, saltLen=None):
+    sig = _plain_sign(self, data, padding, hashAlg, saltLen)
+    ModelKey.all_signed.append((self.kid, list(data), list(sig)))
+    return sig
+
+
+def _verify_euf(self, sig, data, padding=None, hashAlg=None, saltLen=None):
+    good = _plain_verify(self, sig, data, padding, hashAlg, saltLen)
+    if ModelKey.euf and not isinstance(good, bool):
+        # existential unforgeability: a signature verifies under key k only
+        # if the holder of k signed exactly this data
+        mine = [w for w in ModelKey.all_signed
+                if w[0] == self.kid and len(w[1]) == len(data)]
+        assume(OR(NOT(good), OR([seq_eq(list(data), w[1]) for w in mine])))
+    return good
+
+
+ModelKey.sign = _sign_logged
+ModelKey.verify = _verify_euf
+
+
+class CorruptKey(ModelKey):
+    """a peer that does not hold the private key of the certificate it
+    presents: sign() returns what the corruption class dictates; the peer's
+    own self-check (verify on its private key object) is made to pass"""
+
+    def __init__(self, real, kid, mode, I, other=None):
+        ModelKey.__init__(self, real, kid)
+        self.mode = mode
+        self.I = I
+        self.other = other
+
+    def sign(self, data, padding=None, hashAlg=None, saltLen=None):
+        good = _plain_sign(self, data, padding, hashAlg, saltLen)
+        self.signed.append((list(data), padding, hashAlg, saltLen))
+        if self.mode == "arbitrary":
+            sig = self.I.bytes(self.SIGLEN, "forged_sig")
+            assume(NOT(seq_eq(list(sig), list(good))))
+            return newbuf(list(sig))
+        if self.mode == "bitflip":
+            sig = list(good)
+            j = self.I.pick(list(range(0, self.SIGLEN, 5)), "flip_byte")
+            m = self.I.byte("flip_mask")
+            assume(m != 0)
+            sig[j] = sig[j] ^ m
+            return newbuf(sig)
+        if self.mode == "other-key":
+            return _plain_sign(self.other, data, padding, hashAlg, saltLen)
+        if self.mode == "other-transcript":
+            d2 = list(data)
+            d2[-1] = d2[-1] ^ 1
+            return _plain_sign(self, d2, padding, hashAlg, saltLen)
+        if self.mode == "empty":
+            return newbuf([])
+        if self.mode == "short":
+            return newbuf(list(good)[:-1])
+        if self.mode == "long":
+            return newbuf(list(good) + [0])
+        raise ValueError(self.mode)
+
+    def verify(self, sig, data, padding=None, hashAlg=None, saltLen=None):
+        return True        # the dishonest peer does not check itself
+
+    def hashAndVerify(self, sig, data, rsaScheme=None, hAlg=None, sLen=None):
+        return True
+
+
+def distinct_keys_assumption():
+    """signatures under different keys / over different data do not
+    coincide (the SIG_* functions are free otherwise)"""
+    from symx.uf import assume_collision_free
+    assume_collision_free(["SIG"])
+
+
+class Scenario(object):
+    """one handshake between two fresh endpoints with caller-made settings"""
+
+    def __init__(self, I, rnd, cset, sset, server_cred="rsa",
+                 client_cred=None, req_cert=False, intctxt=False, euf=False,
+                 skey=None, ckey=None, reset=True):
+        from models.hello import RSA_CHAIN, RSA_KEY, EC_CHAIN, EC_KEY
+        if reset:
+            reset_models(I, rnd, intctxt, euf)
+        self.I = I
+        self.cset, self.sset = cset, sset
+        creds = {"rsa": (RSA_CHAIN, RSA_KEY), "ecdsa": (EC_CHAIN, EC_KEY)}
+        self.srv_chain = self.cli_chain = None
+        self.skey = self.ckey = None
+        if server_cred:
+            self.srv_chain = creds[server_cred][0]
+            self.skey = skey or model_key(self.srv_chain,
+                                          creds[server_cred][1], "srv")
+            MODEL_KEYS[fp(self.srv_chain)] = self.skey \
+                if not isinstance(self.skey, CorruptKey) \
+                else ModelKey(self.skey.real, self.skey.kid)
+            self.skey.encrypted = []
+            MODEL_KEYS[fp(self.srv_chain)].encrypted = self.skey.encrypted
+        if client_cred:
+            self.cli_chain = creds[client_cred][0]
+            self.ckey = ckey or model_key(self.cli_chain,
+                                          creds[client_cred][1], "cli")
+            MODEL_KEYS[fp(self.cli_chain)] = self.ckey \
+                if not isinstance(self.ckey, CorruptKey) \
+                else ModelKey(self.ckey.real, self.ckey.kid)
+        self.req_cert = req_cert
+        self.client_kwargs = {}
+        self.server_kwargs = {}
+
+    def cgen(self, conn):
+        if self.cli_chain is not None:
+            return conn.handshakeClientCert(self.cli_chain, self.ckey,
+                                            settings=self.cset, async_=True,
+                                            **self.client_kwargs)
+        return conn.handshakeClientCert(settings=self.cset, async_=True,
+                                        **self.client_kwargs)
+
+    def sgen(self, conn):
+        if self.srv_chain is None:
+            return conn.handshakeServerAsync(settings=self.sset,
+                                             **self.server_kwargs)
+        return conn.handshakeServerAsync(certChain=self.srv_chain,
+                                         privateKey=self.skey,
+                                         reqCert=self.req_cert,
+                                         settings=self.sset,
+                                         **self.server_kwargs)
+
+    def run(self, mitm=None):
+        self.cep, self.sep, self.wire = run_pair(self.cgen, self.sgen,
+                                                 mitm=mitm)
+        self.c, self.s = self.cep.conn, self.sep.conn
+        return self
+
+    def completed(self, ep):
+        return ep.done and ep.error is None
+
+    def both_completed(self):
+        return self.completed(self.cep) and self.completed(self.sep)
+
+
+def settings13(cipher="aes128gcm", **kw):
+    from tlslite.handshakesettings import HandshakeSettings
+    s = HandshakeSettings()
+    s.minVersion = s.maxVersion = (3, 4)
+    s.cipherNames = [cipher]
+    s.keyShares = ["x25519"]
+    s.eccCurves = ["x25519", "secp256r1"]
+    s.dhGroups = []
+    s.ticket_count = 0
+    for k, v in kw.items():
+        setattr(s, k, v)
+    return s
+
+
+def settings12(version=(3, 3), kxname="ecdhe_rsa", cipher="aes128gcm",
+               mac="sha", **kw):
+    from tlslite.handshakesettings import HandshakeSettings
+    s = HandshakeSettings()
+    s.minVersion = s.maxVersion = version
+    s.cipherNames = [cipher]
+    s.macNames = ["aead"] if cipher in ("aes128gcm", "aes256gcm",
+                                        "chacha20-poly1305") else [mac]
+    s.keyExchangeNames = [kxname]
+    s.eccCurves = ["x25519", "secp256r1"]
+    s.keyShares = []
+    s.dhGroups = ["ffdhe2048"]
+    s.ticket_count = 0
+    for k, v in kw.items():
+        setattr(s, k, v)
+    return s
+
+
+class RecordMitm(object):
+    """attacker acting on whole records of one direction: action on the k-th
+    record: drop | dup | swap (with the following record) | hold-to-end"""
+
+    def __init__(self, who, k, action):
+        self.who, self.k, self.action = who, k, action
+        self.buf = []
+        self.n = 0
+        self.held = None
+        self.applied = False
+
+    def __call__(self, who, off, data):
+        if who != self.who:
+            return data
+        self.buf += list(data)
+        out = []
+        while len(self.buf) >= 5:
+            ln = (int(self.buf[3]) << 8) | int(self.buf[4])
+            if len(self.buf) < 5 + ln:
+                break
+            rec = self.buf[:5 + ln]
+            del self.buf[:5 + ln]
+            idx = self.n
+            self.n += 1
+            if self.held is not None:
+                out += rec + self.held
+                self.held = None
+                continue
+            if idx != self.k:
+                out += rec
+                continue
+            self.applied = True
+            self.rec_type = int(rec[0])
+            if self.action == "drop":
+                continue
+            if self.action == "dup":
+                out += rec + rec
+            elif self.action == "swap":
+                self.held = rec
+            else:
+                raise ValueError(self.action)
+        return newbuf(out)
+
+
+# ---------------------------------------------------------------------------
+# TLS <= 1.2 PRFs as random functions (attacker obligations)
+# ---------------------------------------------------------------------------
+
+def _model_prf(name):
+    def prf_(secret, label, seed, length):
+        secret, label, seed = list(secret), list(label), list(seed)
+        return apply_uf("PRF_%s_k%d_l%d" % (name, len(secret), len(label)),
+                        secret + label + seed, int(length))
+    return prf_
+
+
+def prf_stubs():
+    """mathtls.PRF / PRF_1_2 / PRF_1_2_SHA384 as uninterpreted functions of
+    (secret, label, seed): C09.11 relates the real functions to RFC 5246
+    P_hash; here they are random functions whose outputs (>= 12 bytes,
+    the Finished length) do not collide"""
+    out = []
+    for mod in (mathtls, tc):
+        for nm in ("PRF", "PRF_1_2", "PRF_1_2_SHA384"):
+            if hasattr(mod, nm):
+                out.append((mod, nm, _model_prf(nm)))
+    return out
+
+
+def model_powmod(base, power, modulus):
+    """cryptomath.powMod: real arithmetic on concrete operands; with a
+    symbolic operand (a key share rewritten in flight) the result is an
+    uninterpreted function of the operands, reduced into [0, modulus)"""
+    from symx.core import SymBool, sym_from_bytes
+    args = (base, power, modulus)
+    if not any(isinstance(x, (SymInt, SymBool)) for x in args):
+        return _REAL_POWMOD(base, power, modulus)
+    n = 0
+    for x in args:
+        if isinstance(x, SymInt):
+            n = max(n, (x.w + 7) // 8)
+        else:
+            n = max(n, (int(x).bit_length() + 7) // 8)
+    n = max(n, 1)
+    buf = []
+    for x in args:
+        buf += list(x.to_bytes(n, "big")) if isinstance(x, SymInt) \
+            else list(int(x).to_bytes(n, "big"))
+    r = sym_from_bytes(apply_uf("MODEXP", buf, n))
+    assume(r < modulus)
+    return r
+
+
+_REAL_POWMOD = cryptomath.powMod
